@@ -1145,9 +1145,10 @@ class Network:
 
         elif isinstance(peer_init_message, PeerPierceFirewall.Request):
             ticket = peer_init_message.ticket
-            try:
-                connection_future = self._expected_connection_futures[ticket]
-            except KeyError:
+            connection_future = self._expected_connection_futures.get(ticket)
+            # A future that is already done was cancelled in this loop
+            # iteration (request finished), its removal callback didn't run yet
+            if connection_future is None or connection_future.done():
                 logger.warning(
                     "%s:%d : unknown pierce firewall ticket : %d",
                     connection.hostname, connection.port, ticket
@@ -1161,7 +1162,8 @@ class Network:
                 await self._event_bus.emit(
                     PeerInitializedEvent(connection, requested=True))
 
-                connection_future.set_result(connection)
+                if not connection_future.done():
+                    connection_future.set_result(connection)
 
         else:
             logger.warning(
